@@ -49,3 +49,32 @@ Definition model_tv_kernel (k : kcase) : res (list seg) * res Z :=
 Definition check_tv_kernel (k : kcase) : bool * bool :=
   let '(g, i) := model_tv_kernel k in
   (rsegs_eqb g (k_obs k) && res_eqb Z.eqb i (k_idx k), holds_kernel k).
+
+(* ---- the per-child loop of _simulate as translated (slice _simulate_child) ---------- *)
+
+(* GeneticMarker(chrom, cm_map_pos, bp_map_pos, prev_coord) = VObj 2 [...] *)
+Definition enc_marker (c bp cm : Z) (prev : val) : val := VObj 2 [VInt c; VStr cm; VInt bp; prev].
+(* an end-of-chromosome marker: the loop reads only its bp and cM (the chrom field is a token) *)
+Definition enc_end (e : Z * Z) : val := enc_marker 0 (fst e) (snd e) VNone.
+(* a recombination event: the marker at which it was drawn (own position unused by the loop)
+   whose prev_coord carries the bp / cM the tract ends at *)
+Definition enc_event (e : event) : val :=
+  enc_marker (ev_chrom e) 0 0 (enc_marker (ev_chrom e) (ev_bp e) (ev_cm e) VNone).
+Definition b2z (b : bool) : Z := if b then 1 else 0.
+Definition enc_draws (hd : list bool) : val := VList (map (fun b => VInt (b2z b)) hd).
+
+Definition child_args (chroms : list Z) (ends : list (Z * Z)) (p ha hb : Z) (prev : list (list seg))
+    (h0 : bool) (hd : list bool) (evs : list event) : list val :=
+  [VList (map VInt chroms); VList (map enc_end ends); VInt p;
+   VList [VInt ha; VInt hb]; VInt (b2z h0); VList (map enc_event evs); enc_gen prev;
+   VList []; enc_draws hd].
+
+Definition model_tv_child (k : ccase) : res (list seg) :=
+  match fn__simulate_child tv_fuel
+          (child_args (c_chroms k) (c_ends k) (c_pop k) 0 1 [c_pa k; c_pb k] (c_h0 k) (c_hd k) (c_evs k)) with
+  | Ok (v, _) => match dec_segs v with Some g => Ok g | None => Err E_Unsupported end
+  | Err e => Err e
+  end.
+
+Definition check_tv_child (k : ccase) : bool * bool :=
+  (rsegs_eqb (model_tv_child k) (c_obs k), holds_child k).
